@@ -630,6 +630,10 @@ func (c *Client) Start() (addr net.Addr, err error) {
 		if c.config.GRPCBrokerMultiplex && c.config.Reattach != nil {
 			return nil, fmt.Errorf("gRPC broker multiplexing is not supported with Reattach config")
 		}
+
+		if c.config.AutoMTLS && c.config.Reattach != nil {
+			return nil, fmt.Errorf("AutoMTLS is not supported with Reattach config")
+		}
 	}
 
 	if c.config.Reattach != nil {
